@@ -138,6 +138,23 @@ def rule_share(ctx):
     # clone() semantics: fresh objects, same limits
     cl = p.method("StreamThrottle", "clone")
     ok = any(isinstance(r, ast.Return) and isinstance(deep_expand(p, r.value, cl), ast.Call) and {k.arg: src(k.value) for k in deep_expand(p, r.value, cl).keywords} == {"read": "self.read.clone()", "write": "self.write.clone()"} for r in walk_no_nested(cl))
+    if not ok:
+        # each field cloned in field order: `read, write = (t.clone() for t in self)` (the tuple's fields are read, write) and passed on by name
+        for r in walk_no_nested(cl):
+            if isinstance(r, ast.Return) and isinstance(r.value, ast.Call) and last_attr(r.value.func) == "StreamThrottle":
+                kw = {k.arg: k.value for k in r.value.keywords}
+                if set(kw) == {"read", "write"} and all(isinstance(v, ast.Name) for v in kw.values()):
+                    for n in walk_no_nested(cl):
+                        if isinstance(n, ast.Assign) and isinstance(n.targets[0], ast.Tuple) and [src(e) for e in n.targets[0].elts] == [kw["read"].id, kw["write"].id] \
+                                and isinstance(n.value, ast.GeneratorExp) and len(n.value.generators) == 1 and src(n.value.generators[0].iter) == "self" \
+                                and not n.value.generators[0].ifs and isinstance(n.value.elt, ast.Call) and is_method_call(n.value.elt, "clone") \
+                                and src(n.value.elt.func.value) == src(n.value.generators[0].target):
+                            fields = None
+                            for cdef, _m in [p.classes.get("StreamThrottle", (None, None))]:
+                                for b in (cdef.bases if cdef is not None else []):
+                                    if isinstance(b, ast.Call) and last_attr(b.func) == "namedtuple" and len(b.args) >= 2 and isinstance(b.args[1], ast.Constant):
+                                        fields = b.args[1].value.replace(",", " ").split()
+                            ok = fields == ["read", "write"]
     ctx.ob("C15.SHARE", cl, "StreamThrottle.clone() clones both directions into fresh Throttle objects", ok, "StreamThrottle.clone does not clone read->read, write->write", construct="clone:stream")
     tc = p.method("Throttle", "clone")
     ok = any(isinstance(r, ast.Return) and isinstance(deep_expand(p, r.value, tc), ast.Call) and last_attr(deep_expand(p, r.value, tc).func) == "Throttle"
